@@ -18,8 +18,14 @@ pub trait CvRDT: Sized {
     /// what happened to a nested value
     spec fn cv_post(old_: &Self, other: &Self, new_: &Self) -> bool;
 
-    fn validate_merge(&self, other: &Self) -> Result<(), Self::Validation>
-        requires self.cv_inv(), other.cv_inv();
+    /// hypotheses on type parameters under which the verdict of validate_merge is exact
+    spec fn cv_vhyp() -> bool;
+    /// C17: what validate_merge flags
+    spec fn cv_flag(&self, other: &Self) -> bool;
+
+    fn validate_merge(&self, other: &Self) -> (r: Result<(), Self::Validation>)
+        requires self.cv_inv(), other.cv_inv(),
+        ensures Self::cv_vhyp() ==> (r is Err <==> self.cv_flag(other));
 
     fn merge(&mut self, other: Self)
         requires old(self).cv_inv(), other.cv_inv(), old(self).cv_pre(&other),
@@ -36,8 +42,14 @@ pub trait CmRDT {
     /// extra precondition of validate_op (hypotheses on type parameters that the invariant cannot carry)
     spec fn cm_vpre(&self, op: &Self::Op) -> bool;
 
-    fn validate_op(&self, op: &Self::Op) -> Result<(), Self::Validation>
-        requires self.cm_inv(), self.cm_vpre(op);
+    /// hypotheses on type parameters under which the verdict of validate_op is exact
+    spec fn cm_vhyp() -> bool;
+    /// C16: what validate_op rejects
+    spec fn cm_vflag(&self, op: &Self::Op) -> bool;
+
+    fn validate_op(&self, op: &Self::Op) -> (r: Result<(), Self::Validation>)
+        requires self.cm_inv(), self.cm_vpre(op),
+        ensures Self::cm_vhyp() ==> (r is Err <==> self.cm_vflag(op));
 
     fn apply(&mut self, op: Self::Op)
         requires old(self).cm_inv(), old(self).cm_pre(&op),
